@@ -45,11 +45,12 @@ set_option maxRecDepth 100000 in
 node 21 records the entry `(4, 1)` and is lower (7); node 18 (a `map` built by the closure over the machine 17 and the outer variable 2) has the inputs `[17, 2]` and the variable 2
 records `(18, 1)`; node 22 (of the generation the last inner lhs change killed) is invalid; the heap is empty -/
 theorem exHistF_final_facts :
-    EX.factF exHistF (fun s => (s.nodes.size, s.isNecessary 4, s.children 4, (s.nodeD 21).parents, (s.nodeD 4).height, (s.nodeD 21).height)) =
-      some (25, true, [3, 21], [(4, 1)], 8, 7) ∧
+    EX.factF exHistF (fun s => (s.nodes.size, s.isNecessary 4, s.children 4, (s.nodeD 21).parents)) =
+      some (25, true, [3, 21], [(4, 1)]) ∧
+    EX.factF exHistF (fun s => ((s.nodeD 4).height, (s.nodeD 21).height, (s.nodeD 3).height)) = some (8, 7, 2) ∧
     EX.factF exHistF (fun s => (s.children 18, (s.nodeD 2).parents, (s.nodeD 22).valid, s.isNecessary 22, s.rch.length)) =
       some ([17, 2], [(18, 1), (19, 0)], false, false, 0) :=
-  ⟨by decide +kernel, by decide +kernel⟩
+  ⟨by decide +kernel, by decide +kernel, by decide +kernel⟩
 
 set_option maxRecDepth 100000 in
 /-- THE STATE BEFORE THE LAST `stabilise` (after `set n2 6`): the recompute heap is NOT empty — it holds exactly the written variable's node 2, needed and stale, in the bucket of its
